@@ -1,11 +1,37 @@
 import FluentProofs.Registry
 /-!
 # C10 — bundle registry behaves as a keyed map over any history of additions
+
+Model: `FluentModel.Registry` (`addResource`, `addResourceOverriding`, `addFunction`,
+`getEntryMessage/Term/Function`, `getMessage`, `MsgNode.getAttribute`; `run ops` = the bundle after
+the history `ops` starting from `FluentBundle::new`).  Specification: `Spec = Id → Option Def`
+(`FluentProofs/Registry.lean`): the keyed map `id → definition` with `specAdd` (a free id takes the
+definition, a taken id is reported), `specAddOv` (every definition is stored) and `specFn`.
+`Bundle.abs b` is the keyed map a bundle denotes: for each id what the stored indices point at.
+
+Every theorem quantifies over ALL histories `ops : List Op` (any interleaving of the three `add`
+calls over arbitrary resources: any ids, any overlap, messages with/without value/attributes,
+terms, Junk/comments at any position) and all ids.
 -/
 namespace FluentProofs.C10
 open FluentModel FluentModel.Registry
 
-/-- the resources list is append-only: after any history it is the list of resources added, in order -/
+/-- **Invariant.** After any history every stored index pair is in range and points at an AST
+entry of the stored kind (message / term) that carries the id it is stored under. -/
+theorem C10_invariant (ops : List Op) : (run ops).Inv :=
+  (foldl_refines ops Bundle.empty Spec.empty empty_inv empty_abs).1
+
+/-- **Refinement.** After any history the registry denotes exactly the keyed map obtained by
+running the specification over the same history. -/
+theorem C10_refinement (ops : List Op) : (run ops).abs = specRun ops :=
+  (foldl_refines ops Bundle.empty Spec.empty empty_inv empty_abs).2
+
+/-- **Errors.** The error vectors returned by the calls of any history are, call by call and in
+order, the ones the keyed-map specification prescribes. -/
+theorem C10_errors (ops : List Op) : trace Bundle.empty ops = specTrace Spec.empty ops := by
+  rw [trace_refines ops Bundle.empty empty_inv, empty_abs]
+
+/-- The resources list is append-only: after any history it is the list of resources added, in order. -/
 theorem C10_resources_append_only (ops : List Op) :
     (run ops).resources = ops.filterMap (fun | .add r => some r | .addOverriding r => some r | .addFn .. => none) := by
   suffices h : ∀ b : Bundle, (ops.foldl (fun b op => (step b op).1) b).resources =
@@ -22,5 +48,154 @@ theorem C10_resources_append_only (ops : List Op) :
     | addFn id tag =>
       simp only [step, addFunction]
       split <;> simp
+
+/-- **`add_resource`: first definition wins, the rest is still added.**  In the state reached by any
+history, `add_resource r` leaves every id that was defined untouched and gives every free id the
+first definition `r` has for it — whether or not other entries of `r` were reported. -/
+theorem C10_add_resource_first_wins (ops : List Op) (r : Resource) (id : Id) :
+    (addResource (run ops) r).1.abs id = match (run ops).abs id with
+      | some d => some d
+      | none => firstDef r id := by
+  rw [(addResource_refines _ r (C10_invariant ops)).2.1, specAdd_lookup]
+  cases (run ops).abs id <;> rfl
+
+/-- **`add_resource`: exact `Overriding` list.**  The returned errors are, in source order, exactly
+the message/term entries of `r` whose id was defined before the call or by an earlier entry of `r`,
+each with its own kind and id (`Ok(())` iff there is none). -/
+theorem C10_add_resource_errors (ops : List Op) (r : Resource) :
+    (addResource (run ops) r).2
+      = expectedErrors (fun id => ((run ops).abs id).isSome) [] r := by
+  rw [(addResource_refines _ r (C10_invariant ops)).2.2, specAdd_errors]
+
+/-- **`add_resource_overriding`: latest definition wins.** -/
+theorem C10_add_resource_overriding_last_wins (ops : List Op) (r : Resource) (id : Id) :
+    (addResourceOverriding (run ops) r).abs id = match lastDef r id with
+      | some d => some d
+      | none => (run ops).abs id := by
+  rw [(addResourceOverriding_refines _ r (C10_invariant ops)).2, specAddOv_lookup]
+  cases lastDef r id <;> rfl
+
+/-- **`add_function`**: registers the function iff the id is free (no message, term or function holds
+it); otherwise nothing changes and `Overriding{Function,id}` is returned. -/
+theorem C10_add_function (ops : List Op) (id : Id) (tag : Nat) :
+    ((run ops).abs id = none →
+      (addFunction (run ops) id tag).1.abs = ((run ops).abs).set id (.function tag) ∧
+      (addFunction (run ops) id tag).2 = none) ∧
+    ((run ops).abs id ≠ none →
+      (addFunction (run ops) id tag).1.abs = (run ops).abs ∧
+      (addFunction (run ops) id tag).2 = some ⟨.function, id⟩) := by
+  have h := addFunction_refines (run ops) id tag (C10_invariant ops)
+  rw [h.2.1, h.2.2]
+  unfold specFn
+  cases (run ops).abs id <;> simp
+
+/-- **`get_message`.**  After any history, `get_message(id)` returns a message iff the keyed map
+holds a *message* for `id` — never for a term or a function — and the returned node carries the
+requested id and exactly the value and the attribute list (source order) of that definition. -/
+theorem C10_get_message (ops : List Op) (id : Id) :
+    getMessage (run ops) id = match specRun ops id with
+      | some (.message v a) => some ⟨id, v, a⟩
+      | _ => none := by
+  rw [← C10_refinement ops]
+  exact getEntryMessage_eq _ (C10_invariant ops) id
+
+/-- `has_message` is true exactly for ids whose winning definition is a message. -/
+theorem C10_has_message (ops : List Op) (id : Id) :
+    hasMessage (run ops) id = true ↔ ∃ v a, specRun ops id = some (.message v a) := by
+  have h := C10_get_message ops id
+  unfold getMessage at h
+  unfold hasMessage
+  rw [h]
+  cases hs : specRun ops id with
+  | none => simp
+  | some d => cases d <;> simp
+
+/-- `FluentMessage::value`, `attributes`, `get_attribute` expose exactly the winning definition:
+same value, same attributes in source order, and `get_attribute(key)` is the first attribute of
+that list whose name is `key`. -/
+theorem C10_message_view (ops : List Op) (id : Id) (m : MsgNode) (h : getMessage (run ops) id = some m) :
+    specRun ops id = some (.message m.value m.attrs) ∧ m.id = id ∧
+      ∀ key, m.getAttribute key = m.attrs.find? (fun a => a.name = key) := by
+  rw [C10_get_message] at h
+  cases hs : specRun ops id with
+  | none => simp [hs] at h
+  | some d =>
+    cases d with
+    | message v a =>
+      simp [hs] at h
+      subst h
+      exact ⟨rfl, rfl, fun _ => rfl⟩
+    | term v a => simp [hs] at h
+    | function t => simp [hs] at h
+
+/-- **Lookups never cross kinds** (`get_entry_term`, `get_entry_function`): a term lookup answers
+iff the keyed map holds a term, a function lookup iff it holds a function (and yields that very
+function). -/
+theorem C10_get_entry_term (ops : List Op) (id : Id) :
+    getEntryTerm (run ops) id = match specRun ops id with
+      | some (.term v a) => some ⟨id, v, a⟩
+      | _ => none := by
+  rw [← C10_refinement ops]
+  exact getEntryTerm_eq _ (C10_invariant ops) id
+
+theorem C10_get_entry_function (ops : List Op) (id : Id) :
+    getEntryFunction (run ops) id = match specRun ops id with
+      | some (.function t) => some t
+      | _ => none := by
+  rw [← C10_refinement ops]
+  exact getEntryFunction_eq _ (C10_invariant ops) id
+
+/-- at most one of the three kind-checked lookups answers for an id -/
+theorem C10_lookups_exclusive (ops : List Op) (id : Id) :
+    ((getEntryMessage (run ops) id).isSome → getEntryTerm (run ops) id = none ∧ getEntryFunction (run ops) id = none) ∧
+    ((getEntryTerm (run ops) id).isSome → getEntryMessage (run ops) id = none ∧ getEntryFunction (run ops) id = none) ∧
+    ((getEntryFunction (run ops) id).isSome → getEntryMessage (run ops) id = none ∧ getEntryTerm (run ops) id = none) := by
+  have h1 := C10_get_message ops id
+  unfold getMessage at h1
+  rw [h1, C10_get_entry_term, C10_get_entry_function]
+  cases hs : specRun ops id with
+  | none => simp
+  | some d => cases d <;> simp
+
+/-- **History of `add_resource` calls only**: an id resolves to its first definition in the
+concatenation of all resources, in the order they were added. -/
+theorem C10_first_wins_history (rs : List Resource) (id : Id) :
+    (run (rs.map Op.add)).abs id = firstDef rs.flatten id := by
+  rw [C10_refinement]
+  unfold specRun
+  rw [List.foldl_map]
+  exact specAdd_fold_lookup rs Spec.empty id
+
+/-- **History of `add_resource_overriding` calls only**: an id resolves to its last definition in the
+concatenation of all resources. -/
+theorem C10_last_wins_history (rs : List Resource) (id : Id) :
+    (run (rs.map Op.addOverriding)).abs id = lastDef rs.flatten id := by
+  rw [C10_refinement]
+  unfold specRun
+  rw [List.foldl_map]
+  have := specAddOv_fold_lookup rs Spec.empty id
+  simp only [specStep]
+  rw [this]
+  cases lastDef rs.flatten id <;> rfl
+
+/-! ## non-vacuity (tests on literals, labelled as such) -/
+
+section Examples
+private def A : Id := [65]
+private def B : Id := [66]
+private def h1 : List Op :=
+  [ .addFn B 0,
+    .add [.message A (some [1]) [⟨[97], [2]⟩, ⟨[97], [3]⟩], .other, .term B [4] [], .message A none [⟨[98], [5]⟩]],
+    .addOverriding [.other, .term A [6] [], .message B (some [7]) []] ]
+
+/-- test: the history mixes the three calls, a Junk entry, a duplicate inside one resource, a
+function blocking a term, and an overriding replacement that changes kinds -/
+example : trace Bundle.empty h1 = [[], [⟨.term, B⟩, ⟨.message, A⟩], []] := by decide
+example : getMessage (run (h1.take 2)) A = some ⟨A, some [1], [⟨[97], [2]⟩, ⟨[97], [3]⟩]⟩ := by decide
+example : (getMessage (run (h1.take 2)) A).bind (·.getAttribute [97]) = some ⟨[97], [2]⟩ := by decide
+example : getEntryFunction (run (h1.take 2)) B = some 0 := by decide
+example : getMessage (run h1) A = none ∧ getEntryTerm (run h1) A = some ⟨A, [6], []⟩ := by decide
+example : getMessage (run h1) B = some ⟨B, some [7], []⟩ ∧ getEntryFunction (run h1) B = none := by decide
+end Examples
 
 end FluentProofs.C10
